@@ -96,19 +96,21 @@ async fn handle(
     hub: SubscriptionHub,
 ) {
     let (read_half, mut write_half) = stream.into_split();
-    let mut reader = BufReader::new(read_half);
-    let mut line = String::new();
+    // `Lines::next_line` is cancellation safe: a partially received line stays
+    // buffered in `lines` when the push arm wins the select. `read_line` is not —
+    // a request arriving in two writes with a pushed event in between lost its
+    // first half.
+    let mut lines = BufReader::new(read_half).lines();
     let (push_tx, mut push_rx) = mpsc::channel::<String>(128);
     let mut owned_ids: Vec<String> = Vec::new();
 
     loop {
         tokio::select! {
-            read_res = reader.read_line(&mut line) => {
+            read_res = lines.next_line() => {
                 match read_res {
-                    Ok(0) => break, // EOF
-                    Ok(_) => {
+                    Ok(None) => break, // EOF
+                    Ok(Some(line)) => {
                         let trimmed = line.trim().to_string();
-                        line.clear();
                         if trimmed.is_empty() {
                             continue;
                         }
